@@ -5,6 +5,8 @@ import Mathlib.Tactic.NormNum
 import TapkeeVerif.Proofs.SpeIndex
 import TapkeeVerif.Proofs.SpeLocal
 import TapkeeVerif.Proofs.SpeSeparate
+import TapkeeVerif.Proofs.SpeRun
+import TapkeeVerif.Proofs.SpeCentroid
 import TapkeeVerif.Gen.SpeVariant
 import TapkeeVerif.Proofs.SpeAlgebra
 import TapkeeVerif.Proofs.RandProjLemmas
@@ -24,13 +26,18 @@ Gaussian entries).  `sqrt` is an oracle with the contract `0 ≤ s ∧ s * s = x
 Status of the planned statements
 * `spe_indices_perm_global`, `spe_global_pairs_distinct` — proved at full strength.
 * `spe_indices_perm_local` — full statement `LocalPermClaim`: `∀ valid neighbours, ∀ streams, ∀ t, (indices at
-  t).Perm (List.range N)`.  FALSE of the code as it stands (finding F-SPE-LOCAL, in-place overwrite of the second
-  half of `indices`): `spe_indices_perm_local_refuted` with a concrete witness, `spe_local_duplicate_first_members`
-  (the consequence: one point selected twice in one iteration, two points gone for good), and
-  `spe_indices_local_partial` (what does hold: no out-of-range access, entries `< N`, every partner is one of the
-  first `k` neighbours of its first member, no self pairs).  TRUE for the repaired shape (partners in a separate
-  vector, `fixes/F-SPE-LOCAL.diff`): `spe_indices_perm_local_separate`.  `spe_indices_perm_local_current` ties the
-  claim to the shape found in the working tree (`Gen.spePartnersInPlace`, regenerated on every check).
+  t).Perm (List.range N)`.  It was FALSE of the code at the pinned commit (finding F-SPE-LOCAL: the local strategy
+  overwrote the second half of `indices` in place; repaired in /repo by bc0d15b, partners now live in a vector of
+  their own).  Both shapes are modelled (`stepPairs inPlace …`); which one the working tree has is regenerated into
+  `Gen.spePartnersInPlace` by every check.  For the repaired shape the full statement is proved
+  (`spe_indices_perm_local_separate`, and — stated on the generated constant, so that a regression breaks it —
+  `spe_indices_perm_local` in `Props/C19Tree.lean`); for the in-place shape the refutation stays checked
+  (`spe_indices_perm_local_refuted` with its witness, `spe_local_duplicate_first_members` for the consequence: one
+  point selected twice in one iteration, two points gone for good) next to what did hold there
+  (`spe_indices_local_partial`: no out-of-range access, entries `< N`, partners are neighbours, no self pairs);
+  `spe_indices_perm_local_current` ties the claim to the shape of the tree.
+* `spe_run_uses_step_pairs` — the pairs the full model `Spe.run` updates are those of the index trajectory `stepAt`;
+  `spe_iteration_preserves_centroid` — a whole iteration never moves the centroid.
 * `spe_pair_step_contracts` — the planned form `|D' − R| ≤ |D − R|·(1 − λ·c)` is false for `tolerance > 0`
   (at `D = R` the update moves the pair: the regulariser biases the step); what holds is proved: the exact error
   recursion `D' − R = (1−λ)(D−R) − λ·R·tol/(D+tol)` and the bounds that follow from it.
@@ -225,6 +232,18 @@ theorem spe_indices_local_partial {N k nupReq : Nat} {nb : List (List Nat)} (hv 
 
 example : ValidNeighbors witnessNb 3 2 := witnessNb_valid
 
+/-- The index theorems are about what the full model updates: in every successful run of `Spe.run` (the term the
+    driver executes against the real code) the pairs recorded at iteration `u` are exactly the pairs of `stepAt` at
+    `u`, driven by the floor values `floorPick` of the run's uniform stream; there is one entry per iteration. -/
+theorem spe_run_uses_step_pairs {K : Type} [Add K] [Sub K] [Mul K] [Div K] [Zero K] [One K] [NatCast K] [IntCast K]
+    [DecidableEq K] [LT K] [DecidableLT K] (inp : Input K) (st : State K) (h : run inp = .ok st) :
+    ∃ k, kOf inp.global inp.nb = .ok k ∧
+      st.trace.length = maxIter inp.N inp.maxIterReq inp.global inp.fl004 ∧
+      ∀ u, u < maxIter inp.N inp.maxIterReq inp.global inp.fl004 → ∃ idx ps,
+        stepAt inp.inPlace inp.global inp.nb k inp.N (clampUpdates inp.N inp.nupReq) inp.shuffle (floorPick inp k) u
+          = .ok (idx, ps) ∧ st.trace.reverse[u]? = some ps :=
+  run_trace inp st h
+
 /-- the hypothesis on the floor values is what `uniform_random() ∈ [0,1)` gives: `⌊u·(k−1)⌋ ∈ [0, max 1 (k−1))`
     — as written the `k`-th neighbour is never picked -/
 theorem spe_floor_pick_in_range {K : Type} [Field K] [LinearOrder K] [IsStrictOrderedRing K] [FloorRing K]
@@ -389,6 +408,16 @@ theorem spe_fixed_point (lam R D tol : K) (yi yj : Vec d K)
     · simp [pairStep, moveJ, hs0]
 
 end algebra
+
+/-- One whole iteration of the coordinate update, for ANY list of pairs (both strategies; repeated points and self
+    pairs included), any distances, any sqrt oracle: the number of points and the sum of every coordinate over all
+    points are unchanged — the centroid of the embedding never moves (it stays that of the random initialisation
+    inside the unit cube; the divergence criterion of the statistical tests relies on this). -/
+theorem spe_iteration_preserves_centroid {K : Type} [Field K] [DecidableEq K] [LT K] [DecidableLT K] {d : Nat}
+    (Y Y' : Array (Array K)) (dist : Nat → Nat → K) (sqrtO : K → K) (alpha tol lam : K) (ps : List (Nat × Nat))
+    (h : coordStep d Y dist sqrtO alpha tol lam ps = .ok Y') :
+    Y'.size = Y.size ∧ ∀ c : Fin d, colSum d Y' c = colSum d Y c :=
+  coordStep_centroid Y Y' dist sqrtO alpha tol lam ps h
 
 /-! ## Random Projection and Factor Analysis -/
 section projections
